@@ -162,7 +162,31 @@ fn shrink_truth(c: &TruthCase, sig: &str) -> TruthCase {
 
 fn gen_truth(rng: &mut TestRng, trans: &[f64]) -> TruthCase {
     let sgn = |rng: &mut TestRng| if rng.chance(1, 2) { 1.0 } else { -1.0 };
-    let (lat, lon) = match rng.below(10) {
+    let mut exact_origin = false;
+    let (lat, lon) = match rng.below(11) {
+        10 => {
+            // exactly on a CPR grid origin: the report of one parity carries 0 in one or both fields
+            exact_origin = true;
+            let k = rng.below(15) as f64;
+            let even = rng.chance(1, 2);
+            let lat = (sgn(rng) * if even { 6.0 * k } else { 360.0 / 59.0 * k }).clamp(-90.0, 90.0);
+            let nl = refcpr::nl(lat) as f64;
+            let zones = if even { nl.max(1.0) } else { (nl - 1.0).max(1.0) };
+            let lon = match rng.below(4) {
+                0 => 0.0,
+                1 => -180.0,
+                _ => {
+                    let m = rng.below(zones as u64) as f64;
+                    let l = 360.0 / zones * m;
+                    if l >= 180.0 {
+                        l - 360.0
+                    } else {
+                        l
+                    }
+                }
+            };
+            (lat, lon)
+        }
         0 | 1 | 2 => {
             // uniform on the sphere
             let z = rng.range_f64(-1.0, 1.0);
@@ -200,7 +224,7 @@ fn gen_truth(rng: &mut TestRng, trans: &[f64]) -> TruthCase {
         }
         _ => (rng.range_f64(-90.0, 90.0), rng.range_f64(-180.0, 180.0)),
     };
-    let d_nm = match rng.below(5) {
+    let d_nm = match if exact_origin { rng.below(2) * 3 } else { rng.below(5) } {
         0 => 0.0,
         1 => 3.0,
         2 => rng.range_f64(2.9, 3.0),
